@@ -77,3 +77,8 @@ native('C01.parse_total', ['C01'], 'bounded',
        '11 seed scripts covering every instruction and argument form; at every char position: deletion, truncation, and replacement / insertion of each of 26 hostile chars (multi-byte letters and digits, NUL, quotes, brackets, sigils); thorough: plus a second hostile char three positions further',
        'aquavm-air-parser', 'crates/air-lib/air-parser/src/lib.rs', 'parse_total.rs', 'verif_native_parse_total::parse_never_panics',
        what='air_parser::parse (AIR lexer, lambda lexer and parser, generated LALR driver, validator) returns on every mutated script: Ok or Err, never a panic (bounded stand-in for the part of C01 that says script parsing is total; found F19)')
+
+native('C13.cursor_nested', ['C13'], 'bounded', 'initial stream of 1..=2 values over {previous(0), current(0), current(1)}; <= 3 (thorough: <= 4) outer fold rounds, each running one complete inner fold over the SAME stream (appending 0..=1 values in its first round) before or after the outer body appends 0..=2 values',
+       'aquavm-air', 'air/src/execution_step/value_types/stream/recursive_stream.rs', 'cursor.rs',
+       'verif_native_cursor::nested_folds_visit_each_value_once',
+       what='nested RecursiveStreamCursors over one real Stream: the outer fold and every inner fold visit each value present exactly once (F14, F14b and the empty-generation bookkeeping between folds)')
